@@ -504,7 +504,7 @@ def run(ctx):
     ctx.parallel([(lambda c=c: ctx.mc("MC_Equivariance.tla", c, timeout=3000, workers=3)) for c in cfgs],
                  width=8)
     jobs = build_jobs(ctx)
-    recs = pool.run_jobs(__name__, jobs)
+    recs = pool.run_jobs(__name__, jobs, reuse=True)
     verdicts = validate_parallel(ctx, recs)
     bad = [(j["fn"], v[0]) for j, v in zip(jobs, verdicts) if v[0] in BAD]
     if bad:
